@@ -97,6 +97,8 @@ type Raster struct {
 	NDraw   int
 	// OnDraw, when set, is called with the paint of every Draw.
 	OnDraw func(src image.Image)
+	// OnDrawRect, when set, is called with the rectangle and source point of every Draw.
+	OnDrawRect func(r image.Rectangle, sp image.Point)
 	// MaxAbs is the largest coordinate magnitude seen (NaN counts as +Inf).
 	MaxAbs float64
 	// Cap, when > 0, is an online bound on NMut: the call that exceeds it panics
@@ -239,6 +241,9 @@ func (z *Raster) Draw(r image.Rectangle, src image.Image, sp image.Point) {
 	z.add(c)
 	if z.OnDraw != nil {
 		z.OnDraw(src)
+	}
+	if z.OnDrawRect != nil {
+		z.OnDrawRect(r, sp)
 	}
 	if z.Fwd != nil {
 		z.Fwd.Draw(r, src, sp)
